@@ -44,6 +44,10 @@ func PathFor(in interface{}) (string, error) {
 		return join(s.ToPath()), nil
 	}
 
+	if rv := reflect.ValueOf(in); rv.Kind() == reflect.Ptr && rv.IsNil() {
+		return "", errors.New("can not calculate path to nil")
+	}
+
 	ni, err := name.Interface(in)
 	if err != nil {
 		return "", err
